@@ -89,6 +89,8 @@ type OpenOpts struct {
 	AllocSize       int    `json:"alloc,omitempty"`
 	NoStatistics    bool   `json:"nostat,omitempty"`
 	TimeoutMs       int    `json:"to,omitempty"`
+	Logger          bool   `json:"logger,omitempty"`   // a (silent) custom logger: takes the logging branches of every API call
+	MmapPopulate    bool   `json:"populate,omitempty"` // Options.MmapFlags = MAP_POPULATE
 }
 
 // Op kinds. Transaction-level ops act on the environment, bucket-level ops on
